@@ -796,6 +796,8 @@ func (g *c18Gen) gen(rt reflect.Type, depth int) reflect.Value {
 			}
 			v.Field(i).Set(g.gen(rt.Field(i).Type, depth-1))
 		}
+	case reflect.Interface:
+		// stays nil (only in judge-only targets outside the model)
 	default:
 		panic("c18 gen: unsupported " + rt.String())
 	}
@@ -1200,8 +1202,24 @@ func runC18RoundTrip(ctx *Ctx) {
 			impl = "ok " + encTy(it)
 		}
 		ctx.Add("gocty.implied", impl, tw, c18TagTab(f.rt))
+		realBridge, isReal := c18RealBridge(f.rt)
+		if isReal {
+			// the real ImpliedType on the Go type with arrays as slices and big numbers as int / float64
+			ctx.Add("gocty.bridge", realBridge, tw, c18TagTab(f.rt))
+			ctx.Tag("bridge:real-ImpliedType")
+			want := "err"
+			if berr == nil {
+				want = "ok " + encTy(bt)
+			}
+			if realBridge != want {
+				ctx.Fail(Failure{Site: "implied", Sig: "ImpliedType of the array-free, big-free variant differs from the documented mapping", What: "bridge type", Input: tw, GoLit: f.rt.String(), Outcome: realBridge})
+			}
+		}
 		if berr == nil {
-			ctx.Add("gocty.bridge", "ok "+encTy(bt), tw, c18TagTab(f.rt))
+			if !isReal {
+				ctx.Add("gocty.bridge", "ok "+encTy(bt), tw, c18TagTab(f.rt))
+				ctx.Tag("bridge:harness-mirror")
+			}
 			if pure && (ierr != nil || !it.Equals(bt)) {
 				ctx.Fail(Failure{Site: "implied", Sig: "ImpliedType differs from the documented mapping", What: "ImpliedType result", Input: tw, GoLit: f.rt.String(), Outcome: impl})
 			}
@@ -1209,7 +1227,10 @@ func runC18RoundTrip(ctx *Ctx) {
 				ctx.Fail(Failure{Site: "implied", Sig: "ImpliedType accepts an array or big number", What: "ImpliedType documents no cty type for arrays and big numbers", Input: tw, GoLit: f.rt.String(), Outcome: impl})
 			}
 		} else {
-			ctx.Add("gocty.bridge", "err", tw, c18TagTab(f.rt))
+			if !isReal {
+				ctx.Add("gocty.bridge", "err", tw, c18TagTab(f.rt))
+				ctx.Tag("bridge:harness-mirror")
+			}
 			if ierr == nil {
 				ctx.Fail(Failure{Site: "implied", Sig: "ImpliedType accepts a struct without cty tags", What: "a struct without tagged fields has no cty type", Input: tw, GoLit: f.rt.String(), Outcome: impl})
 			}
@@ -1238,20 +1259,35 @@ func runC18RoundTrip(ctx *Ctx) {
 		ctx.Tag("rt:" + f.rt.String())
 		ctx.Eval("rt "+gw+" "+tw, c18Nested(f.rt))
 		lit := fmt.Sprintf("g := %#v /* %s */; ty := %#v; v, _ := gocty.ToCtyValue(g, ty); var back %s; err := gocty.FromCtyValue(v, &back)", gv.Interface(), gw, ty, f.rt)
-		fail := func(outcome string) {
+		// the label of a failure is chosen by WHAT happened, not by what the generator was allowed to do:
+		// kind = "panic" | "refused" | "differs" (then d says how) | "other"
+		fail := func(outcome, kind string, d *c18Diff) {
 			if f.mistagged {
 				ctx.Tag("rt-mistagged-not-exact")
 				return
 			}
 			sig := "round trip does not reproduce the Go value"
 			switch {
-			case g.hitNFC:
+			case kind == "differs" && d != nil && !d.other && d.nilLevel:
+				// (NFC differences may come on top: both recorded findings in one value)
+				sig = "nil pointer to a pointer/slice/map/array/cty.Value type comes back as a non-nil pointer (or is refused)"
+			case kind == "differs" && d != nil && !d.other && d.nfc:
 				sig = "string or map key that is not NFC-normalized comes back normalized"
-			case g.hitNil:
+			case kind == "refused" && c18HasNilToNilable(gv):
 				sig = "nil pointer to a pointer/slice/map/array/cty.Value type comes back as a non-nil pointer (or is refused)"
 			}
+			if d != nil && d.first != "" {
+				outcome += " [" + d.first + "]"
+			}
+			ctx.Tag("rt-fail:" + kind)
 			ctx.Fail(Failure{Site: "roundtrip", Sig: sig, What: "FromCtyValue(ToCtyValue(g, implied type)) must reproduce g exactly, nil <-> null",
 				Input: gw + " " + tw, GoLit: lit, Outcome: outcome})
+		}
+		kindOf := func(impl string) string {
+			if impl == "err" {
+				return "refused"
+			}
+			return "panic"
 		}
 		if g.hitMixed {
 			// members of different types can not be one cty list/map: "exact or refuses" demands an error
@@ -1263,28 +1299,33 @@ func runC18RoundTrip(ctx *Ctx) {
 			return
 		}
 		if !strings.HasPrefix(implTo, "ok") {
-			fail("ToCtyValue: " + implTo)
+			fail("ToCtyValue: "+implTo, kindOf(implTo), nil)
 			return
 		}
 		implFrom, target, _, _, _ := c18From(v, f.rt)
 		c18AddFrom(ctx, implFrom, encVal(v), tw)
 		if !strings.HasPrefix(implFrom, "ok") {
-			fail("FromCtyValue: " + implFrom)
+			fail("FromCtyValue: "+implFrom, kindOf(implFrom), nil)
 			return
 		}
 		// encGoVal follows every pointer and prints the pointee, entry by entry: two entries that
 		// came back sharing one pointee print the same (last written) value and differ from gw
 		back := encGoVal(target.Elem())
 		if back != gw {
-			fail("came back as " + back)
+			d := &c18Diff{}
+			d.walk(gv, target.Elem(), "g")
+			if !d.nfc && !d.nilLevel && !d.other {
+				d.other = true // the canonical forms differ although the walk found nothing
+			}
+			fail("came back as "+back, "differs", d)
 			return
 		}
 		if !c18HasSpecial(f.rt) && !reflect.DeepEqual(target.Elem().Interface(), gv.Interface()) {
-			fail("reflect.DeepEqual is false although the canonical forms agree: " + back)
+			fail("reflect.DeepEqual is false although the canonical forms agree: "+back, "other", nil)
 			return
 		}
 		if shared := c18SharedPointee(target.Elem()); shared != "" {
-			fail("two entries of the decoded value share one pointee: " + shared)
+			fail("two entries of the decoded value share one pointee: "+shared, "other", nil)
 		}
 	}
 	// every member of the family once with all-distinct leaves, three entries per slice and map, no nil pointer
@@ -1403,10 +1444,24 @@ func c18Depth(rt reflect.Type) (int, reflect.Type) {
 }
 
 func c18Judge(ctx *Ctx, v cty.Value, rt reflect.Type, impl string, why string) {
-	vw, tw := encVal(v), encGoTy(rt)
+	vw, tw := encVal(v), c18TyName(rt)
 	lit := fmt.Sprintf("var t %s; err := gocty.FromCtyValue(%#v, &t)", rt, v)
 	depth, base := c18Depth(rt)
 	isBig := base == c18BigIntT || base == c18BigFloatT
+	if !v.ContainsMarked() && impl != "panic" {
+		// unmarked: judged at every depth (c18_d18shape.go)
+		c18JudgeDeep(ctx, v, rt, impl)
+		return
+	}
+	if impl == "panic" && v.ContainsMarked() && !strings.Contains(why, "marked") {
+		// the exemption is for the documented "value is marked, so must be unmarked first" panic only
+		ctx.Fail(Failure{Site: "no_panic_unmarked", Sig: "FromCtyValue panics on a marked value for a reason other than the marks", What: "a marked value may only panic because it is marked: " + why,
+			Input: vw + " " + tw, GoLit: lit, Outcome: "panic"})
+		return
+	}
+	if impl == "panic" && v.ContainsMarked() {
+		ctx.Tag("marked-panic:marks")
+	}
 	if impl == "panic" && !v.ContainsMarked() {
 		sig := "FromCtyValue panics on an unmarked value"
 		if isBig && v.Type().IsTupleType() {
@@ -1586,9 +1641,12 @@ func runC18Regressions(ctx *Ctx) {
 func runC18(ctx *Ctx) {
 	runC18Regressions(ctx)
 	runC18Numbers(ctx)
+	runC18NumbersDeep(ctx)
 	runC18RoundTrip(ctx)
 	runC18Decode(ctx)
+	runC18NearMiss(ctx)
 	runC18Irregular(ctx)
+	runC18IrregularValues(ctx)
 	ctx.res.Exhaustive = true
 	ctx.res.Scope = fmt.Sprintf("every integer width/sign (10 types) x %d boundary numbers (2^k, k in {0,7,8,15,16,31,32,63,64}, both signs, +-1, +-0.5, huge, infinite, -0, low precision); "+
 		"float32/float64 x %d boundary numbers (overflow thresholds and neighbours, subnormal halves, double-rounding ties, infinities); %d fixed probes x every target type of the family (%d types)",
@@ -1597,7 +1655,7 @@ func runC18(ctx *Ctx) {
 
 func init() {
 	register("C18", "numbers: boundary values of each of the ten integer widths and both float widths (+-1, +-0.5, huge, infinite) decoded by the real FromCtyValue; "+
-		"round trip: random Go values of a fixed family of 49 Go types (all int widths, floats, string, bool, slices, arrays, string-keyed maps, pointers incl. **int, containers of pointers / of structs with pointer fields (every entry its own pointee; all-distinct three-entry values), "+
+		"round trip: random Go values of a fixed family of 67 Go types (61 + 6 near-miss struct types) (all int widths, floats, string, bool, slices, arrays, string-keyed maps, pointers incl. **int, containers of pointers / of structs with pointer fields (every entry its own pointee; all-distinct three-entry values), "+
 		"nested tagged structs, big.Int, big.Float, embedded cty.Value) through ImpliedType/ToCtyValue/FromCtyValue; decoding: generated cty values (unknown, null, marked, "+
-		"shaped for the target or arbitrary, tuples positionally, sets of primitive members in set iteration order) into every target type; irregular Go types (unsupported kinds, untagged structs, unexported tagged fields, non-string map keys) judged on the real code without the model; ImpliedType on every family type and on its error shapes. non-trivial = a boundary number or a nested Go type; distinct = distinct wire strings of the case", runC18)
+		"shaped for the target or arbitrary, tuples positionally, sets of primitive members in set iteration order) into every target type, every unmarked decode judged at every depth against a verdict computed from the public type information (must be refused / must be accepted / not judged: c18_d18shape.go); near misses: for every struct reachable from a family type, objects with systematically varied attribute sets (stray, missing nilable, both, as many strays as missing, missing required, renamed by typo / case, stray holding null, names in NFD) on values that otherwise fit; boundary numbers into big.Int, big.Float and pointer targets; irregular Go types (unsupported kinds, untagged structs, unexported tagged fields, non-string map keys) judged on the real code without the model; ImpliedType on every family type and on its error shapes. non-trivial = a boundary number or a nested Go type; distinct = distinct wire strings of the case", runC18)
 }
